@@ -6,6 +6,10 @@ import os
 
 V = os.path.dirname(os.path.dirname(os.path.abspath(__file__)))
 meta = json.load(open(os.path.join(V, 'tools', 'manifest_meta.json')))
+md = os.path.join(V, 'tools', 'meta')
+for f in sorted(os.listdir(md)) if os.path.isdir(md) else []:
+    if f.endswith('.json'):
+        meta[f[:-5]] = json.load(open(os.path.join(md, f)))
 props = [json.loads(l) for l in open(os.path.join(V, 'properties.jsonl')) if l.strip()]
 checks, na = [], []
 for p in props:
